@@ -389,6 +389,8 @@ async fn recover_and_check(
     probes: bool,
     rec: &Recorded,
 ) -> Option<BTreeMap<String, Option<Vec<Row>>>> {
+    let vio_at_entry = cx.vio.len();
+    let mut probed_tables: Option<Vec<String>> = None;
     let db = match Db::open(knobs.options(img_root)).await {
         Ok(d) => d,
         Err(e) => {
@@ -444,6 +446,7 @@ async fn recover_and_check(
             .rev()
             .find(|m| state_of(m) == candidates[which]);
         if let Some(m) = defs {
+            probed_tables = Some(m.tables.keys().cloned().collect());
             for (n, (def, rows)) in &m.tables {
                 let mut rng = Rng::new(pi as u64 ^ 0xBEEF);
                 let row: Row = def
@@ -527,5 +530,54 @@ async fn recover_and_check(
     }
     drop(db);
     quiesce().await;
+    // what the recovered database acknowledged must itself survive a clean shutdown + reopen
+    if probes && probed_tables.is_some() && cx.vio.len() == vio_at_entry {
+        cx.stats.evaluations += 1;
+        match Db::open(knobs.options(img_root)).await {
+            Ok(db2) => {
+                let mut names2: Vec<String> = probed_tables.clone().unwrap();
+                names2.push("probe_new".into());
+                let obs2 = observe(&db2, &names2).await;
+                // every probed table was emptied by `DELETE FROM t`; probe_new was created
+                for (n, rows) in &obs2 {
+                    match rows {
+                        Some(r) if r.is_empty() => {}
+                        other => {
+                            cx.violate(Violation::new(
+                                "C04",
+                                "post-recovery-statements-not-durable",
+                                Some(pi),
+                                format!(
+                                    "{label}: after recovery the database acknowledged INSERT / DELETE FROM {n} / CREATE TABLE probe_new; after a clean shutdown and reopen {n} is {}",
+                                    match other {
+                                        Some(r) => format!("{} rows [{}]", r.len(), rows_brief(r, 6)),
+                                        None => "absent".into(),
+                                    }
+                                ),
+                            ));
+                            break;
+                        }
+                    }
+                }
+                let _ = db2.shutdown().await;
+                drop(db2);
+                quiesce().await;
+            }
+            Err(e) => {
+                cx.violate(
+                    Violation::new(
+                        "C04",
+                        "reopen-after-recovery-failed",
+                        Some(pi),
+                        format!(
+                            "{label}: recovery worked and new statements were acknowledged, but the next open failed: {}",
+                            first_line(&e)
+                        ),
+                    )
+                    .with_sig(&crate::hist::panic_site(&e)),
+                );
+            }
+        }
+    }
     Some(obs)
 }
